@@ -15,11 +15,16 @@ from checks import common as C
 import pyclifford as pc
 
 
-def build_circuit(N, prog, cls='Circuit'):
-    """prog: list of gate dicts; {'kind':'measure','qubits':[..]} and {'kind':'rand','qubits':[..]} allowed for Circuit."""
+def build_circuit(N, prog, cls='Circuit', compile_before=None):
+    """prog: list of gate dicts; {'kind':'measure','qubits':[..]} and {'kind':'rand','qubits':[..]} allowed for Circuit.
+    compile_before = index of a measure item: compile() is called on the (complete, still unitary or not) prefix right before that measurement
+    is appended - everything appended after a measurement layer lives in new, uncompiled layers, so no compiled map is stale."""
     circ = pc.Circuit(N) if cls == 'Circuit' else pc.circuit.CliffordCircuit(N)
     gates = []
-    for gd in prog:
+    for i, gd in enumerate(prog):
+        if compile_before is not None and i == compile_before:
+            assert gd['kind'] == 'measure'
+            circ.compile()
         if gd['kind'] == 'measure':
             if gd.get('via') == 'take':        # documented alternative: hand over the layer object
                 circ.take(pc.MeasureLayer(*gd['qubits'], N=N))
